@@ -137,9 +137,6 @@ impl Block for SymbolSync {
                 }
                 opos += 1;
                 self.next_sym_middle += self.clock;
-                if opos == olen {
-                    break;
-                }
             }
             let sign = *sample > 0.0;
             if sign != self.last_sign {
@@ -196,6 +193,10 @@ impl Block for SymbolSync {
                 self.stream_pos -= step_back;
                 self.last_sym_boundary_pos -= step_back;
                 self.next_sym_middle -= step_back;
+            }
+            // Only stop once the sample is fully accounted for.
+            if opos == olen {
+                break;
             }
         }
         input.consume(n);
